@@ -16,6 +16,11 @@ for p in sorted(glob.glob("/verif/mutants/*/*.patch") + glob.glob("/verif/mutant
     cases.append(("mutants/" + pid + "/" + os.path.basename(p), pid, p, None))
 if sel:
     cases = [c for c in cases if c[1] in sel]
+if "--mutants-only" in sys.argv:
+    cases = [c for c in cases if c[0].startswith("mutants/")]
+if "--new" in sys.argv and os.path.exists("/verif/selftest_result.json"):
+    done = {r["case"] for r in json.load(open("/verif/selftest_result.json")) if r["status"] == "DETECTED"}
+    cases = [c for c in cases if c[0] not in done]
 
 def run(case):
     name, pid, patch, metaf = case
@@ -46,4 +51,8 @@ for (name, pid, patch, metaf), status, obls in results:
         m["detected_by"] = {"check": f"./check {pid} quick", "result": status, "failing_obligations": obls[:8]} if status == "DETECTED" else {"check": f"./check {pid} quick", "result": status}
         json.dump(m, open(metaf, "w"), indent=1)
 print(f"{det}/{len(results)} detected")
-json.dump([{"case": n, "property": pid, "status": st, "failing_obligations": ob[:4]} for (n, pid, _, _), st, ob in results], open("/verif/selftest_result.json", "w"), indent=1)
+new = [{"case": n, "property": pid, "status": st, "failing_obligations": ob[:4]} for (n, pid, _, _), st, ob in results]
+if ("--new" in sys.argv or sel or "--mutants-only" in sys.argv) and os.path.exists("/verif/selftest_result.json"):
+    old = [r for r in json.load(open("/verif/selftest_result.json")) if r["case"] not in {x["case"] for x in new}]
+    new = sorted(old + new, key=lambda r: r["case"])
+json.dump(new, open("/verif/selftest_result.json", "w"), indent=1)
